@@ -234,23 +234,34 @@ K("C10/text/display", ["C10", "C12"], UC + "c10_uci_display_parses_back", ["<uci
 # generators (C01 item 3, C06 item 3, C07 has_legal_moves): witness-sink obligations per private
 # sub-generator; the dispatchers are Layer V (movegen.vspec)
 # ---------------------------------------------------------------------------------------------
-GENFN = {"knight": ["movegen::MoveGenImpl::gen_knight", "movegen::MoveGenImpl::do_gen_kn"], "king": ["movegen::MoveGenImpl::gen_king", "movegen::MoveGenImpl::do_gen_kn"]}
-GEN_ALL = []
-for _p in ("knight", "king"):
-    for _f, _fd in (("tt", "all targets"), ("tf", "non-captures only"), ("ft", "captures only"), ("ff", "nothing")):
-        for _c in ("w", "b"):
+GENFN = {"knight": ["movegen::MoveGenImpl::gen_knight", "movegen::MoveGenImpl::do_gen_kn"], "king": ["movegen::MoveGenImpl::gen_king", "movegen::MoveGenImpl::do_gen_kn"],
+         "bishop": ["movegen::MoveGenImpl::do_gen_brq"], "rook": ["movegen::MoveGenImpl::do_gen_brq"], "queen": ["movegen::MoveGenImpl::do_gen_brq"]}
+GENLOOP = {"knight": ("do_gen_kn", 9), "king": ("do_gen_kn", 9), "bishop": ("do_gen_brq", 14), "rook": ("do_gen_brq", 15), "queen": ("do_gen_brq", 28)}
+GEN_ALL = []      # the complete obligations the dispatcher proof imports
+GEN_QUICK = []    # what the quick tier runs for them (bounded variants for N/B/R/Q)
+
+
+def _gen(idname, harness, piece, flags, colour, maxk, tier, what, props=("C01", "C06", "C07", "C19")):
+    fn, inner = GENLOOP[piece]
+    bounded = None if maxk >= 16 or piece == "king" else "at most %d %ss of the moving colour (outer loop of the generator unwound %d times); complete variant: thorough tier" % (maxk, piece, maxk + 1)
+    K(idname, list(props), MG + harness, GENFN[piece] + ["movegen::MoveGenImpl::add_move", "movegen::MoveGenImpl::allowed_mask"],
+      "for all well-formed boards (side %s, <= 16 men a side%s) and an ARBITRARY witness move w of a %s: %s" % (colour, "" if bounded is None else ", <= %d %ss" % (maxk, piece), piece, what),
+      assumes=TABLES + ["C20/bitboard/iter-step"], tier=tier, timeout=5400, mem_gb=24, mem_est=6 if piece == "queen" else 4, bounded=bounded)
+    OBS[-1]["unwindset"] = [(fn, 1, min(maxk, 16) + 1), (fn, 0, inner)]
+
+
+for _p in ("knight", "king", "bishop", "rook", "queen"):
+    for _c in ("w", "b"):
+        for _f, _fd in ((("tt", "all targets"), ("tf", "non-captures only"), ("ft", "captures only"), ("ff", "nothing")) if _p in ("knight", "king") else (("tt", "all targets"),)):
             _id = "C01/gen/%s/%s/%s" % (_p, _f, _c)
             GEN_ALL.append(_id)
-            K(_id, ["C01", "C06", "C07", "C19"], MG + "gen_%s_%s_%s" % (_p, _f, _c), GENFN[_p] + ["movegen::MoveGenImpl::add_move", "movegen::MoveGenImpl::allowed_mask"],
-              "for all well-formed boards (side %s, <= 16 men a side) and an ARBITRARY witness move w of a %s: the generator with flags %s (%s) pushes w exactly once iff w is pseudo-legal by the rules and in that class, never otherwise; it stops at the first refused push and reports it" % (_c, _p, _f, _fd),
-              assumes=["C15/attack/leapers-pawns", "C20/bitboard/iter-step"], tier="quick" if _f == "tt" else "thorough", timeout=3000, mem_gb=16)
-for _p in ("bishop", "rook", "queen"):
-    for _c in ("w", "b"):
-        _id = "C01/gen/%s/tt/%s" % (_p, _c)
-        GEN_ALL.append(_id)
-        K(_id, ["C01", "C06", "C07", "C19"], MG + "gen_%s_tt_%s" % (_p, _c), ["movegen::MoveGenImpl::do_gen_brq", "movegen::MoveGenImpl::add_move", "movegen::MoveGenImpl::allowed_mask"],
-          "for all well-formed boards (side %s, <= 16 men a side) and an arbitrary witness %s move w: do_gen_brq pushes w exactly once iff w is pseudo-legal (slides over empty squares to an empty or enemy square)" % (_c, _p),
-          assumes=TABLES + ["C20/bitboard/iter-step"], timeout=3600, mem_gb=20)
+            _what = "the generator with flags %s (%s) pushes w exactly once iff w is pseudo-legal by the rules and in that class, never otherwise" % (_f, _fd)
+            _gen(_id, "gen_%s_%s_%s" % (_p, _f, _c), _p, _f, _c, 1 if _p == "king" else 16, "quick" if (_p == "king" and _f == "tt") else "thorough", _what)
+            if _p == "king" and _f == "tt":
+                GEN_QUICK.append(_id)
+            if _p != "king" and _f == "tt":
+                _gen(_id + "/le3", "gen_%s_%s_%s_q" % (_p, _f, _c), _p, _f, _c, 3, "quick", _what)
+                GEN_QUICK.append(_id + "/le3")
 K("C01/gen/allowed-mask", ["C01", "C06"], MG + "gen_allowed_mask_flags", ["movegen::MoveGenImpl::allowed_mask"],
   "for all boards, both colours: allowed_mask<S,C> == not-own / empty / enemy / nothing for (t,t) (t,f) (f,t) (f,f) - the only place the flags enter the piece generators")
 for _f, _fd in (("tt", "single and double steps and promotions"), ("tf", "no promotions"), ("ft", "promotions only")):
@@ -270,13 +281,24 @@ for _g, _gd, _fn in (("pawn_capture", "ordinary pawn captures (incl. capture-pro
           "for all well-formed boards (side %s, <= 16 men, no back-rank pawns, consistent mark) and an arbitrary witness move w: the generator pushes w exactly once iff w is one of the pseudo-legal %s" % (_c, _gd),
           assumes=ATT + ["C15/pawns/advances", "C15/castling/masks"], timeout=3000, mem_gb=16)
 EXITS = []
+EXITS_QUICK = []
 for _g in ("knight", "king", "bishop", "rook", "queen", "pawn_simple", "pawn_capture", "pawn_enpassant"):
     for _c in ("w", "b"):
         _id = "C07/gen-exit/%s/%s" % (_g.replace("_", "-"), _c)
         EXITS.append(_id)
-        K(_id, ["C07", "C19"], MG + "exit_%s_%s" % (_g, _c), ["movegen::MoveGenImpl (sub-generator %s)" % _g],
-          "for all well-formed boards (side %s, <= 16 men, no back-rank pawns, consistent mark) and an arbitrary witness move w refused by the sink: the sub-generator returns Err iff w is one of the moves it generates, and pushes nothing after the refusal (so with any sink it stops at, and reports, the first refused move - has_legal_moves)" % _c,
-          assumes=TABLES, timeout=3600, mem_gb=20)
+        _stmt = "for all well-formed boards (side %s, <= 16 men, no back-rank pawns, consistent mark) and an arbitrary witness move w refused by the sink: the sub-generator returns Err iff w is one of the moves it generates, and pushes nothing after the refusal (so with any sink it stops at, and reports, the first refused move - has_legal_moves)" % _c
+        _slider = _g in ("knight", "bishop", "rook", "queen")
+        K(_id, ["C07", "C19"], MG + "exit_%s_%s" % (_g, _c), ["movegen::MoveGenImpl (sub-generator %s)" % _g], _stmt,
+          assumes=TABLES, timeout=5400, mem_gb=24, mem_est=5, tier="thorough" if _slider else "quick")
+        if _g in GENLOOP:
+            OBS[-1]["unwindset"] = [(GENLOOP[_g][0], 1, 2 if _g == "king" else 17), (GENLOOP[_g][0], 0, GENLOOP[_g][1])]
+        if _slider:
+            K(_id + "/le3", ["C07", "C19"], MG + "exit_%s_%s_q" % (_g, _c), ["movegen::MoveGenImpl (sub-generator %s)" % _g], _stmt,
+              assumes=TABLES, timeout=3600, mem_gb=16, bounded="at most 3 %ss of the moving colour; complete variant: thorough tier" % _g)
+            OBS[-1]["unwindset"] = [(GENLOOP[_g][0], 1, 4), (GENLOOP[_g][0], 0, GENLOOP[_g][1])]
+            EXITS_QUICK.append(_id + "/le3")
+        else:
+            EXITS_QUICK.append(_id)
 
 K("C07/legal-filter", ["C07", "C01", "C09"], MG + "c07_legal_filter_forwards_iff_is_legal", ["movegen::LegalFilter::new", "movegen::LegalFilter::push", "movegen::ErrOnFirst::push"],
   "for all boards with one king each and any move: LegalFilter::push forwards the move to the inner sink exactly when Checker<DefaultPrechecker>::is_legal holds and returns the inner sink's answer; ErrOnFirst refuses every push",
@@ -386,6 +408,12 @@ OBS.append(dict(id="C19/unsafe-site-map", props=["C19"], backend="scan", fns=[],
 V("C09/check-marks/verus", ["C09"], "san.vspec", ["san::Move::from_move"],
   "san::Move::from_move: Ok iff the move is legal; the data part is Data::from_move; the check mark is '+' iff the position after the move is check and the opponent has a legal move, '#' iff it is check and there is none, none otherwise",
   assumes=["C16/check-queries", "C07/legal-filter", "C01/gen/dispatch", "C09/from-move/simple", "C09/from-move/pawns-castling"] + ["C02/make-move/%s/%s" % (_k, _c) for _s, _k in KINDS for _c in ("w", "b")])
+
+K("C01/legal-gen/end-to-end-small", ["C01", "C06", "C19"], MG + "c01_legal_generators_end_to_end_small_boards",
+  ["movegen::legal::gen_all", "movegen::legal::gen_capture", "movegen::legal::gen_simple", "movegen::legal::gen_simple_no_promote", "movegen::legal::gen_simple_promote",
+   "movegen::semilegal::gen_*", "movegen::semilegal::gen_*_into", "movegen::UnsafeMoveList::push", "ArrayVec::retain"],
+  "for every valid position with at most two men a side and an arbitrary witness move w: each of the five public legal generators returns w exactly once iff w is legal by the rules and in that generator's class (real macro-generated glue, real ArrayVec)",
+  bounded="positions with at most 2 men per side (the unbounded statement is the composition of C01/gen/*, C01/gen/dispatch, C01/legal/*)", timeout=5400, mem_gb=24, mem_est=8)
 
 
 def by_id():
